@@ -125,6 +125,9 @@ def handle (line : String) : String :=
       let showO : Exe.R (Option Exe.Bytes) → String := fun
         | .ok (some x) => "ok:x" ++ hexOfBytes x | .ok none => "ok:none" | .err => "err" | .panic => "panic"
       match op, rest with
+      | "validpe", [p] => match unxBytes p with
+        | some pl => if decide (Exe.ValidPe bytes nameB pl) then "valid" else "not-valid"
+        | none => "bad-op"
       | "validelf", [] => if decide (Exe.ValidElf bytes nameB) then "valid" else "not-valid"
       | "extelf", [] => showO (Exe.extractElf bytes nameB)
       | "extpe", [] => showO (Exe.extractPe bytes nameB)
